@@ -27,7 +27,7 @@ Definition mon_C20 (r : sreq) (o : sres) : bool :=
           if eq_ci h (auth_host n) then sres_eqb o (Forward true)      (* equal: never rejected, validated *)
           else sres_eqb o RejectInvalid                                 (* differ: rejected *)
       | Some h, None => sres_eqb o RejectMissing                        (* no server name: rejected *)
-      | None, Some _ => match o with Forward false => true | _ => false end   (* names no host: never marked validated *)
+      | None, Some _ => match o with Forward b => implb b (s_premarked r) | _ => false end   (* names no host: never marked validated by this layer *)
       | None, None => match o with Forward true => false | _ => true end
       end
   end.
